@@ -3,7 +3,7 @@ from run import Job
 MANIFEST = dict(
     category="other",
     text="Decided on the real bodies for bounded sizes: the ROC curve of every label pattern and every score order (scores symbolic, no ties) "
-         "starts at (0,0), has one point per object in descending score order with coordinates count/total, is monotone and ends at (1,1); "
+         "starts at (0,0), has one point per object in descending score order with coordinates count/total, is monotone and ends at (1,1), the precision-recall curve starts at (0,1), has non-decreasing recall ending at 1 with each point = (tp/positives, tp/(tp+fp)); "
          "the 'missing-coded truths are ignored' obligation for R2/MSE/MAE/BIAS (value equals the function on the vectors without that element) is only attempted in the thorough tier: no back end finished it within 15 minutes; the PLS "
          "statistic tables are R2/RMSE/BIAS applied per response and latent variable to the right columns with missing-coded rows removed.",
     note="Bounded: 2..3 objects for ROC (all patterns/orders enumerated), 3 elements for the missing-value obligation, 2..3 rows for the tables. "
@@ -27,7 +27,7 @@ def jobs(tier):
                     continue
                 d = {"VC_UNIT_ROC": None, "VC_N": n, "VC_LABELS": labels, "VC_PERM": perm}
                 J.append(Job("ROC@n=%d,labels=%d,perm=%d" % (n, labels, perm), "C15/stats.c", entry="h_ROC", srcs=S, kind="bounded", defines=d, unwind=n + 4,
-                             functions=["ROC", "MatrixReverseSort"], bound="%d objects, label pattern %d, score order %d; score values symbolic" % (n, labels, perm),
+                             functions=["ROC", "PrecisionRecall", "MatrixReverseSort"], bound="%d objects, label pattern %d, score order %d; score values symbolic" % (n, labels, perm),
                              clause="ROC point sequence: origin, one point per object by descending score, count/total coordinates, monotone, ends at (1,1)"))
     for k in (0, 1, 2):
         for which, nm in ((0, "MAE"), (1, "MSE"), (2, "R2"), (3, "BIAS")):
